@@ -728,6 +728,14 @@ class Translator:
         if name in ("any", "all"):
             vals = [self.truth(x) for x in list(a0)]
             return any(vals) if name == "any" else all(vals)
+        if name == "str" and len(args) == 1:
+            if isinstance(a0, str):
+                return a0
+            if is_sym(a0) and a0.is_number:
+                return str(a0)
+            raise Unmodelled("str() of a symbolic value")
+        if name == "print":
+            return None
         if name == "getattr" and len(args) >= 2 and isinstance(args[1], str):
             if isinstance(a0, SelfObj):
                 try:
